@@ -389,19 +389,23 @@ func (f Frame) Atom(cond ssa.Value, pol bool) (Set, bool) {
 	default:
 		return nil, false
 	}
+	return f.atomOps(b.Op, b.X, b.Y, pol)
+}
+
+func (f Frame) atomOps(op token.Token, x, y ssa.Value, pol bool) (Set, bool) {
 	var s Set
-	if f.isSubject(b.X) {
-		k, ok := f.term(b.Y)
+	if f.isSubject(x) {
+		k, ok := f.term(y)
 		if !ok {
 			return nil, false
 		}
-		s = atomSet(b.Op, k)
-	} else if f.isSubject(b.Y) {
-		k, ok := f.term(b.X)
+		s = atomSet(op, k)
+	} else if f.isSubject(y) {
+		k, ok := f.term(x)
 		if !ok {
 			return nil, false
 		}
-		s = atomSet(flip(b.Op), k)
+		s = atomSet(flip(op), k)
 	} else {
 		return nil, false
 	}
@@ -409,6 +413,30 @@ func (f Frame) Atom(cond ssa.Value, pol bool) (Set, bool) {
 		s = s.Complement()
 	}
 	return s, true
+}
+
+// phiOnPath: a variable that clauses of a switch set differently and a shared tail then
+// reads (`n = len(a.xs)` in one case, `n = len(b.xs)` in another; `if n > max` after the
+// switch) is, on a given path, the value its clause gave it.
+func phiOnPath(v ssa.Value, p Path) ssa.Value {
+	for i := 0; i < 8; i++ {
+		ph, ok := v.(*ssa.Phi)
+		if !ok {
+			return v
+		}
+		pred := p.Pred(ph.Block())
+		next := ssa.Value(nil)
+		for j, pb := range ph.Block().Preds {
+			if pb == pred && ph.Edges[j] != ssa.Value(ph) {
+				next = ph.Edges[j]
+			}
+		}
+		if next == nil {
+			return v
+		}
+		v = next
+	}
+	return v
 }
 
 // PathMeaning intersects the constraints of the path's branch edges. Branch
@@ -637,6 +665,15 @@ func (f Frame) evalBool(v ssa.Value, p Path, depth int) (t, fs Set, known bool) 
 		if a, ok := f.Atom(x, true); ok {
 			return full.Intersect(a), full.Intersect(a.Complement()), true
 		}
+		// an operand that is a per-clause variable: what it is on this path
+		switch x.Op {
+		case token.LSS, token.LEQ, token.GTR, token.GEQ, token.EQL, token.NEQ:
+			if rx, ry := phiOnPath(x.X, p), phiOnPath(x.Y, p); rx != x.X || ry != x.Y {
+				if a, ok := f.atomOps(x.Op, rx, ry, true); ok {
+					return full.Intersect(a), full.Intersect(a.Complement()), true
+				}
+			}
+		}
 	case *ssa.Call:
 		// a pure predicate of the module (`isTagKey(k)`): its verdict means what its
 		// body means, read in the caller's terms
@@ -792,3 +829,6 @@ func (f Frame) EvalBool(v ssa.Value, p Path) (isTrue, isFalse, known bool) {
 	t, fs, k := f.evalBool(v, p, 0)
 	return !t.IsEmpty(), !fs.IsEmpty(), k
 }
+
+// PhiOnPath: the value a per-clause variable has on path p (see phiOnPath).
+func PhiOnPath(v ssa.Value, p Path) ssa.Value { return phiOnPath(v, p) }
